@@ -466,6 +466,10 @@ def main(argv=None) -> int:
         os.makedirs(os.path.join(VERIF, "evidence"), exist_ok=True)
         with open(os.path.join(VERIF, "evidence", f"{pid}.json"), "w") as fh:
             json.dump(evidence, fh, indent=1, default=str)
+        # the same record kept per tier (evidence/<id>.json always holds the latest run of either tier)
+        os.makedirs(os.path.join(VERIF, "evidence_by_tier", a.tier), exist_ok=True)
+        with open(os.path.join(VERIF, "evidence_by_tier", a.tier, f"{pid}.json"), "w") as fh:
+            json.dump(evidence, fh, indent=1, default=str)
 
     # ---- verdict
     print(f"[{pid}] tier={a.tier} cubes={len(checks)} confirmed={evidence['coverage']['cubes_confirmed']} "
